@@ -75,6 +75,19 @@ def parse_avro(bs: bytes) -> Tuple[str, Optional[List[str]]]:
     return "notavro", None
 
 
+def parse_legacy_json(bs: bytes) -> Tuple[str, Optional[List[str]]]:
+    """The legacy JSON format of a manifest list / manifest: ('list'|'manifest', paths) / ('notavro', None)."""
+    try:
+        d = json.loads(bs.decode("utf-8"))
+        if isinstance(d, dict) and isinstance(d.get("manifests"), list):
+            return "list", [m["manifest_path"] for m in d["manifests"]]
+        if isinstance(d, dict) and isinstance(d.get("files"), list):
+            return "manifest", [f["file_path"] for f in d["files"]]
+    except Exception:  # noqa: BLE001
+        pass
+    return "notavro", None
+
+
 CAUGHT_BY_READERS = (ValueError, IndexError, StopIteration, OSError)   # pinned by translator/gen_norm.py (AVRO_CAUGHT)
 
 
@@ -215,6 +228,8 @@ class IndepReader:
         """(list key, manifest keys, data keys) of one snapshot; raises if anything is unreadable."""
         lkey = resolve(snap["manifest_list"])
         kind, mpaths = parse_avro(self._bytes(lkey))
+        if kind == "notavro":
+            kind, mpaths = parse_legacy_json(self._bytes(lkey))
         if kind != "list":
             raise ValueError(f"manifest list {lkey} unreadable ({kind})")
         mkeys, dkeys = [], []
@@ -222,6 +237,8 @@ class IndepReader:
             mk = resolve(mp)
             mkeys.append(mk)
             kind2, dpaths = parse_avro(self._bytes(mk))
+            if kind2 == "notavro":
+                kind2, dpaths = parse_legacy_json(self._bytes(mk))
             if kind2 != "manifest":
                 raise ValueError(f"manifest {mk} unreadable ({kind2})")
             dkeys.extend(resolve(d) for d in dpaths or [])
